@@ -170,17 +170,17 @@ Proof.
 Qed.
 
 (* ------------------------------------------------------------------ C type selection facts *)
-Lemma wide_sign : forall l r els, fits_long l r = KWide -> long_sign (l, r, els) = -1.
+Lemma wide_sign : forall w l r els, fits_long w l r = KWide -> long_sign w (l, r, els) = -1.
 Proof.
-  intros l r els. unfold fits_long, long_sign.
-  destruct (is_val l && (0 <=? edge_val l) && (edge_val l <=? two31m1) && is_max r); [discriminate|].
+  intros w l r els. unfold fits_long, long_sign.
+  destruct (is_val l && (0 <=? edge_val l) && (edge_val l <=? two31m1) && is_max r && negb w); [discriminate|].
   destruct (is_val l && (0 <=? edge_val l) && is_val r && (two31m1 <? edge_val r) && (edge_val r <=? two32m1)); [discriminate|].
   reflexivity.
 Qed.
-Lemma pos_sign_ulong : forall l r els, 0 < long_sign (l, r, els) -> fits_long l r = KULong.
+Lemma pos_sign_ulong : forall w l r els, 0 < long_sign w (l, r, els) -> fits_long w l r = KULong.
 Proof.
-  intros l r els. unfold fits_long, long_sign.
-  destruct (is_val l && (0 <=? edge_val l) && (edge_val l <=? two31m1) && is_max r); [reflexivity|].
+  intros w l r els. unfold fits_long, long_sign.
+  destruct (is_val l && (0 <=? edge_val l) && (edge_val l <=? two31m1) && is_max r && negb w); [reflexivity|].
   destruct (is_val l && (0 <=? edge_val l) && is_val r && (two31m1 <? edge_val r) && (edge_val r <=? two32m1)); [reflexivity|].
   lia.
 Qed.
@@ -193,16 +193,39 @@ Proof.
   destruct l, r; simpl in *; try discriminate; lia.
 Qed.
 
-(* ------------------------------------------------------------------ the generated INTEGER checker *)
-Lemma int_check_exact : forall ps exc z, int_safe ps exc = true -> int_repr ps z = true ->
-  (int_check ps z = ROk <-> sat_int ps exc z = true).
+(* the sign shortcut: comparing the sign of the number decides (0..MAX) and (MIN..-1) *)
+Lemma shortcut_exact : forall l r els z, sign_shortcut (l, r, els) = true ->
+  ((match emit None None (l, r, els) with
+    | [] => ROk
+    | txt => if eval (sign_of z) txt then ROk else RFail WConstraint
+    end) = ROk <-> inl (parts_of (l, r, els)) z).
 Proof.
-  intros ps exc z S R. unfold int_safe in S. apply andb_true_iff in S. destruct S as [S Sc].
+  intros l r els z H. unfold sign_shortcut in H. destruct els; [|discriminate].
+  unfold parts_of. rewrite inl_one. unfold inp. simpl fst. simpl snd.
+  apply orb_true_iff in H. destruct H as [H|H].
+  - apply andb_true_iff in H. destruct H as [H Hr]. apply andb_true_iff in H. destruct H as [Hl H0].
+    destruct l as [| |a]; try discriminate. destruct r; try discriminate. simpl in H0.
+    assert (a = 0) by lia. subst a. unfold emit, emit1, sign_of. simpl.
+    unfold eval. simpl. destruct (z <? 0) eqn:E; simpl; split; intro X; try reflexivity; try discriminate; lia.
+  - apply andb_true_iff in H. destruct H as [H Hm1]. apply andb_true_iff in H. destruct H as [Hl Hr].
+    destruct l; try discriminate. destruct r as [| |b]; try discriminate. simpl in Hm1.
+    assert (b = -1) by lia. subst b. unfold emit, emit1, sign_of. simpl.
+    unfold eval. simpl. destruct (z <? 0) eqn:E; simpl; split; intro X; try reflexivity; try discriminate; lia.
+Qed.
+
+(* ------------------------------------------------------------------ the generated INTEGER checker *)
+(* exact when the value can be read out of its INTEGER_t, or when a value that cannot be read is
+   outside the range anyway *)
+Lemma int_check_exact_gen : forall w ps exc z, int_safe_core w ps exc = true -> int_repr w ps z = true ->
+  (int_wide_ok w ps = true \/ int_readable w ps z = true) ->
+  (int_check w ps z = ROk <-> sat_int ps exc z = true).
+Proof.
+  intros w ps exc z S R WR. unfold int_safe_core in S. apply andb_true_iff in S. destruct S as [S Sc].
   apply andb_true_iff in S. destruct S as [Sx Sw].
   assert (exc = []) as -> by (destruct exc; [reflexivity | discriminate]).
   pose proof (forallb_wfp _ Sw) as W.
   unfold sat_int. simpl. rewrite andb_true_r.
-  unfold int_check, int_repr in *.
+  unfold int_check, int_repr, int_wide_ok, int_readable in *.
   destruct (crange_of ps) as [c|] eqn:Ec.
   2:{ destruct ps as [|p0 ps0]; [tauto|]. exfalso. revert Ec. apply crange_of_some. congruence. }
   destruct (crange_of_spec ps c W Ec) as [Wc [Den Shape]].
@@ -210,32 +233,86 @@ Proof.
   { destruct ps as [|p0 ps0]; [discriminate|]. rewrite in_parts_iff. symmetry. apply Den. }
   rewrite SAT. clear SAT.
   destruct c as [[l r] els].
-  apply andb_true_iff in Sc. destruct Sc as [Sc Stext].
-  apply andb_true_iff in Sc. destruct Sc as [Sc Swide].
-  apply andb_true_iff in Sc. destruct Sc as [Shole Ssg].
-  apply negb_true_iff in Shole. apply negb_true_iff in Ssg.
-  destruct (is_min l && is_max r) eqn:Emm.
-  - (* MIN..MAX: nothing generated; safe says there is a single interval *)
-    simpl in Shole. destruct els; [|discriminate].
+  rename Sc into Stext.
+  destruct (is_min l && is_max r && negb (nonnil els)) eqn:Emm.
+  - (* the single interval MIN..MAX: nothing generated *)
+    apply andb_true_iff in Emm. destruct Emm as [Emm E3]. apply negb_true_iff in E3.
+    destruct els; [|discriminate].
     apply andb_true_iff in Emm. destruct Emm as [E1 E2].
     destruct l; try discriminate. destruct r; try discriminate.
     simpl. split; [intros _|reflexivity]. apply inl_one. unfold inp. simpl. tauto.
-  - rewrite Ssg.
-    set (sg := long_sign (l, r, els)) in *.
+  - set (sg := long_sign w (l, r, els)) in *.
     assert (N : nscond (if 0 <? sg then Some 0 else None) z).
     { intros s Hs. destruct (0 <? sg) eqn:Ep; [|discriminate]. inversion Hs; subst.
-      assert (0 < sg) by lia. rewrite (pos_sign_ulong l r els H) in R. unfold uint64 in R. lia. }
+      assert (0 < sg) by lia. rewrite (pos_sign_ulong w l r els H) in R. unfold uint64 in R. lia. }
     pose proof (emit_decide (if 0 <? sg then Some 0 else None) (l, r, els) z Wc N Stext) as ED.
-    destruct (fits_long l r) eqn:Ek.
+    unfold needs_read in *.
+    destruct (fits_long w l r) eqn:Ek; simpl is_kwide in *; cbn [andb] in *.
     + (* long *) cbn [negb]. exact ED.
     + (* unsigned long *) cbn [negb]. exact ED.
     + (* INTEGER_t *)
       assert (Esg : sg = -1) by (apply wide_sign; exact Ek).
-      replace (0 <=? sg) with false by lia.
-      destruct (int64 z) eqn:E64; cbn [negb].
-      * exact ED.
-      * split; [discriminate|]. intro X. exfalso.
-        apply Den in X. apply in_parts_iff in X. rewrite (fin64_out ps z Swide E64) in X. discriminate.
+      destruct (sign_shortcut (l, r, els)) eqn:Esc; cbn [negb] in *.
+      * (* the sign is compared *)
+        replace (0 <? sg) with false by lia. apply shortcut_exact. exact Esc.
+      * replace (0 <=? sg) with false in * by lia.
+        destruct (int64 z) eqn:E64; cbn [negb].
+        -- exact ED.
+        -- destruct WR as [Swide|Rd]; [|discriminate].
+           split; [discriminate|]. intro X. exfalso.
+           apply Den in X. apply in_parts_iff in X. rewrite (fin64_out ps z Swide E64) in X. discriminate.
+Qed.
+
+Lemma int_check_exact : forall w ps exc z, int_safe w ps exc = true -> int_repr w ps z = true ->
+  (int_check w ps z = ROk <-> sat_int ps exc z = true).
+Proof.
+  intros w ps exc z S R. unfold int_safe in S. apply andb_true_iff in S. destruct S as [S1 S2].
+  apply int_check_exact_gen; auto.
+Qed.
+
+(* ------------------------------------------------------------------ half-open ranges, any finite bound *)
+(* (MIN..b) and (a..MAX): the decision order of emit_range_comparison_code matters here, because
+   the MIN / MAX edge carries value 0 (a range whose finite bound is 0 must not be taken for the
+   single value 0). *)
+Definition half_open (p : ipair) : bool :=
+  (is_min (fst p) && is_val (snd p)) || (is_val (fst p) && is_max (snd p)).
+
+Lemma crange_of_one : forall p, crange_of [p] = Some (fst p, snd p, []).
+Proof. intros [l r]. reflexivity. Qed.
+
+Lemma half_open_core : forall w p, half_open p = true -> int_safe_core w [p] [] = true.
+Proof.
+  intros w [l r] H. unfold half_open in H. simpl in H.
+  unfold int_safe_core. rewrite crange_of_one. simpl fst. simpl snd.
+  destruct l as [| |a]; destruct r as [| |b]; simpl in H; try discriminate.
+  - (* MIN..b *) destruct w; reflexivity.
+  - (* a..MAX *) reflexivity.
+Qed.
+
+Theorem half_open_exact : forall w p z, half_open p = true ->
+  int_repr w [p] z = true -> int_readable w [p] z = true ->
+  (int_check w [p] z = ROk <-> in_pair z p = true).
+Proof.
+  intros w p z H R Rd.
+  pose proof (int_check_exact_gen w [p] [] z (half_open_core w p H) R (or_intror Rd)) as X.
+  unfold sat_int in X. simpl in X. rewrite andb_true_r, orb_false_r in X. exact X.
+Qed.
+
+(* the text emitted for a half-open range: never the single-value test *)
+Lemma half_open_text : forall ns p, half_open p = true ->
+  match emit1 ns None p with
+  | Some (CEq _) | Some (CBetween _ _) => False
+  | Some (CLe v) => is_min (fst p) = true /\ v = edge_val (snd p)
+  | Some (CGe v) => is_max (snd p) = true /\ v = edge_val (fst p)
+  | None => is_max (snd p) = true /\ exists s, ns = Some s /\ edge_val (fst p) <= s
+  end.
+Proof.
+  intros ns [l r] H. unfold half_open in H. simpl in H. unfold emit1. simpl fst. simpl snd.
+  destruct l as [| |a]; destruct r as [| |b]; simpl in H; try discriminate; simpl.
+  - auto.
+  - destruct ns as [s|]; simpl.
+    + destruct (a <=? s) eqn:E; simpl; [split; [reflexivity | exists s; split; [reflexivity | lia]] | auto].
+    + auto.
 Qed.
 
 (* ------------------------------------------------------------------ the generated SIZE test *)
@@ -253,10 +330,11 @@ Proof.
   { destruct sz as [|p0 ps0]; [discriminate|]. rewrite in_parts_iff. symmetry. apply Den. }
   rewrite SAT. clear SAT.
   destruct c as [[l r] els].
-  apply andb_true_iff in Sc. destruct Sc as [Sdrop Stext]. apply negb_true_iff in Sdrop.
+  rename Sc into Stext.
   assert (N : nscond (Some 0) n) by (intros s Hs; inversion Hs; subst; exact Hn).
-  destruct ((edge_val l =? 0) && is_max r) eqn:Ed.
-  - simpl in Sdrop. destruct els; [|discriminate].
+  destruct ((edge_val l =? 0) && is_max r && negb (nonnil els)) eqn:Ed.
+  - apply andb_true_iff in Ed. destruct Ed as [Ed E3]. apply negb_true_iff in E3.
+    destruct els; [|discriminate].
     apply andb_true_iff in Ed. destruct Ed as [E1 E2]. destruct r; try discriminate.
     simpl in Wc. inversion Wc as [|? ? Wp Wtl]; subst. destruct Wp as [W1 _]. simpl in W1.
     split; [intros _|reflexivity]. apply inl_one. unfold inp. simpl.
@@ -284,75 +362,111 @@ Qed.
 Theorem errmsg_untouched : forall maxlen vlen : Z, maxlen <= 0 -> ctfail_clamp maxlen vlen = None.
 Proof. intros. unfold ctfail_clamp. destruct (maxlen <=? 0) eqn:E; [reflexivity | lia]. Qed.
 
+Lemma zlength_nonneg_l : forall A (l : list A), 0 <= zlength l.
+Proof. intros. unfold zlength. lia. Qed.
+
+(* what is in the caller's buffer afterwards, for EVERY buffer size (the message has no NUL inside) *)
+Lemma msg_at_nonzero : forall msg j, Forall (fun c => c <> 0) msg -> 0 <= j < zlength msg -> msg_at msg j <> 0.
+Proof.
+  intros msg j F H. unfold msg_at, zlength in *. rewrite Forall_forall in F. apply F. apply nth_In. lia.
+Qed.
+
+Theorem errmsg_buffer_exact : forall (f : buffer) (maxlen : Z) (msg : list Z),
+  1 <= maxlen -> Forall (fun c => c <> 0) msg ->
+  exists errlen, snd (ctfail f maxlen msg) = Some errlen /\
+    0 <= errlen < maxlen /\ errlen = Z.min (zlength msg) (maxlen - 1) /\
+    fst (ctfail f maxlen msg) errlen = 0 /\                                      (* terminated at errbuf[*errlen] *)
+    (forall j, 0 <= j < errlen -> fst (ctfail f maxlen msg) j = msg_at msg j /\
+                                  fst (ctfail f maxlen msg) j <> 0) /\            (* a prefix of the message; strlen = *errlen *)
+    (forall j, j < 0 \/ errlen < j -> fst (ctfail f maxlen msg) j = f j).         (* nothing else is written, inside or beyond *)
+Proof.
+  intros f maxlen msg H F. pose proof (zlength_nonneg_l _ msg) as L.
+  unfold ctfail, ctfail_clamp. destruct (maxlen <=? 0) eqn:E0; [lia|].
+  destruct (maxlen <=? zlength msg) eqn:E1.
+  - exists (maxlen - 1). simpl. unfold write, vsnprintf_into.
+    replace (Z.min (zlength msg) (maxlen - 1)) with (maxlen - 1) by lia.
+    split; [reflexivity|]. split; [lia|]. split; [reflexivity|]. split; [rewrite Z.eqb_refl; reflexivity|]. split.
+    + intros j Hj. replace (j =? maxlen - 1) with false by lia.
+      replace ((0 <=? j) && (j <? maxlen - 1)) with true by lia.
+      split; [reflexivity | apply msg_at_nonzero; [exact F | lia]].
+    + intros j Hj. replace (j =? maxlen - 1) with false by lia.
+      replace ((0 <=? j) && (j <? maxlen - 1)) with false by lia. reflexivity.
+  - replace (0 <=? zlength msg) with true by lia.
+    exists (zlength msg). simpl. unfold write, vsnprintf_into.
+    replace (Z.min (zlength msg) (maxlen - 1)) with (zlength msg) by lia.
+    split; [reflexivity|]. split; [lia|]. split; [reflexivity|]. split; [rewrite Z.eqb_refl; reflexivity|]. split.
+    + intros j Hj. replace (j =? zlength msg) with false by lia.
+      replace ((0 <=? j) && (j <? zlength msg)) with true by lia.
+      split; [reflexivity | apply msg_at_nonzero; [exact F | lia]].
+    + intros j Hj. replace (j =? zlength msg) with false by lia.
+      replace ((0 <=? j) && (j <? zlength msg)) with false by lia. reflexivity.
+Qed.
+
+Theorem errmsg_buffer_untouched : forall (f : buffer) (maxlen : Z) (msg : list Z),
+  maxlen <= 0 -> ctfail f maxlen msg = (f, None).
+Proof. intros. unfold ctfail. rewrite errmsg_untouched; auto. Qed.
+
 (* ------------------------------------------------------------------ walkers *)
-Definition exact_at (t : cty) : Prop :=
-  forall slot v, safe t slot = true -> repr t v = true ->
-    (chk t slot v = ROk <-> satisfies t v = true).
+Definition exact_at (w : bool) (t : cty) : Prop :=
+  forall slot v, safe w t slot = true -> repr w t v = true ->
+    (chk w t slot v = ROk <-> satisfies t v = true).
 
 Lemma res_false : forall w, RFail w = ROk <-> false = true.
 Proof. intros; split; discriminate. Qed.
 
-Lemma own_but_last_tail : forall m r, own_but_last (m :: r) = true -> own_but_last r = true.
-Proof. intros m [|m' r'] H; [reflexivity|]. simpl in H. apply andb_true_iff in H. tauto. Qed.
-Lemma own_but_last_head : forall m r, own_but_last (m :: r) = true -> has_own m = false -> r = [].
-Proof. intros m [|m' r'] H E; [reflexivity|]. simpl in H. apply andb_true_iff in H. destruct H as [H _]. congruence. Qed.
-
 Lemma opt_free_none : forall t, opt_free_head t = true -> satisfies t VNone = false.
 Proof. induction t; simpl; intros; try reflexivity; try discriminate; auto. Qed.
 
-Lemma not_opt_none : forall m, is_copt m = false -> safe m true = true -> satisfies m VNone = false.
+Lemma not_opt_none : forall w m, is_copt m = false -> safe w m true = true -> satisfies m VNone = false.
 Proof.
-  intros m E S. destruct m; simpl in *; try reflexivity; try discriminate.
+  intros w m E S. destruct m; simpl in *; try reflexivity; try discriminate.
   apply andb_true_iff in S. destruct S as [S _]. apply opt_free_none. exact S.
 Qed.
 
-Lemma members_exact : forall ms, Forall exact_at ms -> forall vs,
-  own_but_last ms = true -> forallb (fun m => safe m true) ms = true -> all2 repr ms vs = true ->
-  (walk_members (fun m x => chk m true x) ms vs = ROk <-> all2 satisfies ms vs = true).
+Lemma members_exact : forall w ms, Forall (exact_at w) ms -> forall vs,
+  forallb (fun m => safe w m true) ms = true -> all2 (repr w) ms vs = true ->
+  (walk_members (fun m x => chk w m true x) ms vs = ROk <-> all2 satisfies ms vs = true).
 Proof.
-  induction ms as [|m ms' IH]; intros F vs O S R.
+  intros w. induction ms as [|m ms' IH]; intros F vs S R.
   - destruct vs; simpl; [tauto | apply res_false].
   - destruct vs as [|v vs']; [simpl; apply res_false|].
     inversion F as [|? ? Pm Fms]; subst.
     simpl in S. apply andb_true_iff in S. destruct S as [Sm Sms].
     simpl in R. apply andb_true_iff in R. destruct R as [Rm Rms].
-    pose proof (own_but_last_tail _ _ O) as O'.
-    specialize (IH Fms vs' O' Sms Rms).
+    specialize (IH Fms vs' Sms Rms).
     assert (PRES : v <> VNone ->
-      ((if has_own m then match chk m true v with ROk => walk_members (fun m x => chk m true x) ms' vs' | e => e end
-        else chk m true v) = ROk <-> satisfies m v && all2 satisfies ms' vs' = true)).
-    { intros _. specialize (Pm true v Sm Rm). destruct (has_own m) eqn:Eo.
-      - destruct (chk m true v) eqn:Ec.
-        + destruct Pm as [P1 _]. rewrite (P1 eq_refl). simpl. exact IH.
-        + destruct (satisfies m v) eqn:Es; [destruct Pm as [_ P2]; specialize (P2 eq_refl); discriminate|].
-          simpl. apply res_false.
-      - pose proof (own_but_last_head _ _ O Eo) as ->. destruct vs'; [|simpl in Rms; discriminate].
-        simpl. rewrite andb_true_r. exact Pm. }
+      ((match chk w m true v with ROk => walk_members (fun m x => chk w m true x) ms' vs' | e => e end) = ROk
+       <-> satisfies m v && all2 satisfies ms' vs' = true)).
+    { intros _. specialize (Pm true v Sm Rm).
+      destruct (chk w m true v) eqn:Ec.
+      - destruct Pm as [P1 _]. rewrite (P1 eq_refl). simpl. exact IH.
+      - destruct (satisfies m v) eqn:Es; [destruct Pm as [_ P2]; specialize (P2 eq_refl); discriminate|].
+        simpl. apply res_false. }
     destruct v; try (simpl; apply PRES; discriminate).
     (* VNone *)
     simpl. destruct (is_copt m) eqn:Ec.
     + destruct m; try discriminate. simpl. exact IH.
-    + rewrite (not_opt_none m Ec Sm). simpl. apply res_false.
+    + rewrite (not_opt_none w m Ec Sm). simpl. apply res_false.
 Qed.
 
-Lemma elems_exact : forall e, exact_at e -> safe e true = true -> forall vs,
-  forallb (repr e) vs = true ->
-  (walk_elems (chk e true) vs = ROk <-> forallb (satisfies e) vs = true).
+Lemma elems_exact : forall w e, exact_at w e -> safe w e true = true -> forall vs,
+  forallb (repr w e) vs = true ->
+  (walk_elems (chk w e true) vs = ROk <-> forallb (satisfies e) vs = true).
 Proof.
-  intros e P S. induction vs as [|v r IH]; intros R; simpl; [tauto|].
+  intros w e P S. induction vs as [|v r IH]; intros R; simpl; [tauto|].
   simpl in R. apply andb_true_iff in R. destruct R as [Rv Rr].
   specialize (P true v S Rv). specialize (IH Rr).
-  destruct (chk e true v) eqn:Ec.
+  destruct (chk w e true v) eqn:Ec.
   - destruct P as [P1 _]. rewrite (P1 eq_refl). simpl. exact IH.
   - destruct (satisfies e v) eqn:Es; [destruct P as [_ P2]; specialize (P2 eq_refl); discriminate|].
     simpl. apply res_false.
 Qed.
 
-Lemma alt_exact : forall alts, Forall exact_at alts -> forall i v,
-  forallb (fun a => safe a true) alts = true -> pick repr true v alts i = true ->
-  (pick (fun a x => chk a true x) (RFail WNoAlt) v alts i = ROk <-> pick satisfies false v alts i = true).
+Lemma alt_exact : forall w alts, Forall (exact_at w) alts -> forall i v,
+  forallb (fun a => safe w a true) alts = true -> pick (repr w) true v alts i = true ->
+  (pick (fun a x => chk w a true x) (RFail WNoAlt) v alts i = ROk <-> pick satisfies false v alts i = true).
 Proof.
-  induction alts as [|a r IH]; intros F i v S R.
+  intros w. induction alts as [|a r IH]; intros F i v S R.
   - destruct i; simpl; apply res_false.
   - inversion F as [|? ? Pa Fr]; subst. simpl in S. apply andb_true_iff in S. destruct S as [Sa Sr].
     destruct i as [|j]; simpl in *.
@@ -364,18 +478,18 @@ Lemma zlength_nonneg : forall A (l : list A), 0 <= zlength l.
 Proof. intros. unfold zlength. lia. Qed.
 
 (* ------------------------------------------------------------------ check_exact *)
-Theorem chk_exact : forall t, exact_at t.
+Theorem chk_exact : forall w t, exact_at w t.
 Proof.
-  induction t using cty_ind'; unfold exact_at; intros slot v S R.
+  intros w. induction t using cty_ind'; unfold exact_at; intros slot v S R.
   - destruct v; simpl; try apply res_false; tauto.
   - destruct v; simpl; try apply res_false; tauto.
   - destruct v; simpl; try apply res_false. simpl in S, R. apply int_check_exact; auto.
   - destruct v; simpl; try apply res_false. simpl in S. apply size_check_exact; auto. apply zlength_nonneg.
-  - destruct v; simpl; try apply res_false. simpl in S, R. apply andb_true_iff in S. destruct S as [So Sm].
+  - destruct v; simpl; try apply res_false. simpl in S, R.
     apply members_exact; auto.
   - destruct v; simpl; try apply res_false. simpl in S, R.
     apply andb_true_iff in S. destruct S as [S Se]. apply andb_true_iff in S. destruct S as [Ssz Sslot].
-    pose proof (elems_exact t IHt Se vs R) as EL.
+    pose proof (elems_exact w t IHt Se vs R) as EL.
     pose proof (size_check_exact sz (zlength vs) Ssz (zlength_nonneg _ vs)) as SZ.
     destruct slot.
     + destruct (size_check sz (zlength vs)) eqn:Ec.
@@ -385,23 +499,23 @@ Proof.
     + simpl in Sslot. apply negb_true_iff in Sslot. destruct sz; [|discriminate]. simpl. exact EL.
   - destruct v; simpl; try apply res_false. simpl in S, R. apply alt_exact; auto.
   - simpl in S, R. apply andb_true_iff in S. destruct S as [_ S].
-    replace (chk (CRef g t) slot v) with (chk t g v) by (destruct v; reflexivity).
+    replace (chk w (CRef g t) slot v) with (chk w t g v) by (destruct v; reflexivity).
     replace (satisfies (CRef g t) v) with (satisfies t v) by (destruct v; reflexivity).
-    replace (repr (CRef g t) v) with (repr t v) in R by (destruct v; reflexivity).
+    replace (repr w (CRef g t) v) with (repr w t v) in R by (destruct v; reflexivity).
     apply IHt; auto.
   - destruct v; simpl; try apply res_false; try tauto. simpl in S, R. apply IHt; auto.
 Qed.
 
 (* asn_check_constraints on a definition accepts exactly the satisfying values, inside the safe region *)
-Theorem check_exact_partial : forall t v, safe t false = true -> repr t v = true ->
-  (check t v = ROk <-> satisfies t v = true).
+Theorem check_exact_partial : forall w t v, safe w t false = true -> repr w t v = true ->
+  (check w t v = ROk <-> satisfies t v = true).
 Proof. intros. unfold check. apply chk_exact; auto. Qed.
 
-Corollary check_ok_exact_partial : forall t v, safe t false = true -> repr t v = true ->
-  check_ok t v = satisfies t v.
+Corollary check_ok_exact_partial : forall w t v, safe w t false = true -> repr w t v = true ->
+  check_ok w t v = satisfies t v.
 Proof.
-  intros t v S R. pose proof (check_exact_partial t v S R) as H. unfold check_ok.
-  destruct (check t v); destruct (satisfies t v); try reflexivity.
+  intros w t v S R. pose proof (check_exact_partial w t v S R) as H. unfold check_ok.
+  destruct (check w t v); destruct (satisfies t v); try reflexivity.
   - destruct H as [H _]. specialize (H eq_refl). discriminate.
   - destruct H as [_ H]. specialize (H eq_refl). discriminate.
 Qed.
@@ -409,7 +523,7 @@ Qed.
 (* the walker is a structural fixpoint on the type: every call descends into a strict
    sub-term of the type and consumes one node of the value, so there is no fuel and an
    outcome exists for every type and every value *)
-Theorem check_total : forall t v, exists r, check t v = r.
+Theorem check_total : forall w t v, exists r, check w t v = r.
 Proof. intros. eexists. reflexivity. Qed.
 
 (* ------------------------------------------------------------------ Rt.Types: single ranges *)
@@ -426,62 +540,70 @@ Proof.
     symmetry. apply Z.leb_le. exact Hn.
 Qed.
 
-Corollary check_exact_of_ty_partial : forall (t : ty) v, safe (of_ty t) false = true -> repr (of_ty t) v = true ->
-  (check (of_ty t) v = ROk <-> satisfies (of_ty t) v = true).
+Corollary check_exact_of_ty_partial : forall w (t : ty) v, safe w (of_ty t) false = true -> repr w (of_ty t) v = true ->
+  (check w (of_ty t) v = ROk <-> satisfies (of_ty t) v = true).
 Proof. intros. apply check_exact_partial; auto. Qed.
 
 (* ------------------------------------------------------------------ outside the safe region: witnesses *)
 Definition iv (a b : Z) : ipair := (EV a, EV b).
 
-(* SEQUENCE { a BOOLEAN, b INTEGER (1..10) }, { TRUE, 99 } *)
-Lemma refuted_sequence_early_return : exists t v,
-  repr t v = true /\ check t v = ROk /\ satisfies t v = false.
-Proof. exists (CSeq [CBool; CInt [iv 1 10] []]), (VSeq [VBool true; VInt 99]). vm_compute. auto. Qed.
-
 (* T ::= SEQUENCE (SIZE(2..3)) OF BOOLEAN, { TRUE } *)
 Lemma refuted_of_size_unchecked : exists t v,
-  repr t v = true /\ check t v = ROk /\ satisfies t v = false.
+  repr false t v = true /\ check false t v = ROk /\ satisfies t v = false.
 Proof. exists (CSeqOf [iv 2 3] CBool), (VList [VBool true]). vm_compute. auto. Qed.
 
 (* INTEGER (1..10 EXCEPT 5), 5 *)
 Lemma refuted_except_ignored : exists t v,
-  repr t v = true /\ check t v = ROk /\ satisfies t v = false.
+  repr false t v = true /\ check false t v = ROk /\ satisfies t v = false.
 Proof. exists (CInt [iv 1 10] [iv 5 5]), (VInt 5). vm_compute. auto. Qed.
-
-(* INTEGER (MIN..5 | 10..MAX), 7 *)
-Lemma refuted_min_max_union : exists t v,
-  repr t v = true /\ check t v = ROk /\ satisfies t v = false.
-Proof. exists (CInt [(EMin, EV 5); (EV 10, EMax)] []), (VInt 7). vm_compute. auto. Qed.
-
-(* INTEGER (0..4294967295), 4294967296 (fits the 64-bit unsigned long) *)
-Lemma refuted_ulong_shortcut : exists t v,
-  repr t v = true /\ check t v = ROk /\ satisfies t v = false.
-Proof. exists (CInt [iv 0 4294967295] []), (VInt 4294967296). vm_compute. auto. Qed.
 
 (* INTEGER (MIN..1099511627776), -2^70: rejected although it satisfies *)
 Lemma refuted_wide_open_range : exists t v,
-  repr t v = true /\ check t v = RFail WTooLarge /\ satisfies t v = true.
+  repr false t v = true /\ check false t v = RFail WTooLarge /\ satisfies t v = true.
 Proof. exists (CInt [(EMin, EV 1099511627776)] []), (VInt (-1180591620717411303424)). vm_compute. auto. Qed.
 
 (* the full statement is false of the code *)
-Theorem check_exact_refuted : exists t v, repr t v = true /\ check_ok t v <> satisfies t v.
-Proof. exists (CSeq [CBool; CInt [iv 1 10] []]), (VSeq [VBool true; VInt 99]). vm_compute. split; [reflexivity | discriminate]. Qed.
+Theorem check_exact_refuted : exists t v, repr false t v = true /\ check_ok false t v <> satisfies t v.
+Proof. exists (CSeqOf [iv 2 3] CBool), (VList [VBool true]). vm_compute. split; [reflexivity | discriminate]. Qed.
 
 (* ------------------------------------------------------------------ non-vacuity *)
 Definition ex_ty : cty :=
   CSeq [CInt [iv 1 10; iv 20 30] []; COct [iv 1 2; iv 5 6];
         CSeqOf [iv 2 3] (CInt [(EV 0, EMax)] []); COpt (CInt [iv 0 4294967294] []);
         CChoice [CInt [(EMin, EV 10)] []; CRef true (CSeqOf [iv 1 1] CBool); CRef false (CSeq [CBool])]].
-Example ex_safe : safe ex_ty false = true.
-Proof. vm_compute. reflexivity. Qed.
+Example ex_safe : safe false ex_ty false = true /\ safe true ex_ty false = false.
+Proof. vm_compute. auto. Qed.
 Example ex_accept :
   let v := VSeq [VInt 25; VOct [1; 2; 3; 4; 5]; VList [VInt 0; VInt 7]; VNone; VChoice 1 (VList [VBool true])] in
-  repr ex_ty v = true /\ check ex_ty v = ROk /\ satisfies ex_ty v = true.
+  repr false ex_ty v = true /\ check false ex_ty v = ROk /\ satisfies ex_ty v = true.
 Proof. vm_compute. auto. Qed.
 Example ex_reject :
   let v := VSeq [VInt 25; VOct [1; 2; 3; 4; 5]; VList [VInt 0; VInt 7]; VSome (VInt 4294967295); VChoice 2 (VSeq [VBool false])] in
-  repr ex_ty v = true /\ check ex_ty v = RFail WConstraint /\ satisfies ex_ty v = false.
+  repr false ex_ty v = true /\ check false ex_ty v = RFail WConstraint /\ satisfies ex_ty v = false.
 Proof. vm_compute. auto. Qed.
+(* the shapes of three repaired defects are inside [safe] and decided as the Spec says:
+   a later SEQUENCE member behind one without a checker of its own; a value in the hole of a union whose
+   hull is MIN..MAX (value and SIZE); INTEGER (0..4294967295) above 2^32-1 *)
+Example ex_repaired :
+  safe false (CSeq [CBool; CInt [iv 1 10] []]) false = true /\
+  check false (CSeq [CBool; CInt [iv 1 10] []]) (VSeq [VBool true; VInt 99]) = RFail WConstraint /\
+  safe false (CInt [(EMin, EV 5); (EV 10, EMax)] []) false = true /\
+  check false (CInt [(EMin, EV 5); (EV 10, EMax)] []) (VInt 7) = RFail WConstraint /\
+  check false (CInt [(EMin, EV 5); (EV 10, EMax)] []) (VInt 10) = ROk /\
+  safe false (COct [iv 0 0; (EV 4, EMax)]) false = true /\
+  check false (COct [iv 0 0; (EV 4, EMax)]) (VOct [1; 2]) = RFail WConstraint /\
+  safe false (CInt [iv 0 4294967295] []) false = true /\
+  check false (CInt [iv 0 4294967295] []) (VInt 4294967296) = RFail WConstraint /\
+  check false (CInt [iv 0 4294967295] []) (VInt 4294967295) = ROk.
+Proof. vm_compute. auto 12. Qed.
+
+(* the finite bound 0 next to a MIN / MAX edge (whose .value is 0 as well): still an inequality *)
+Example ex_half_open_zero :
+  emit1 None None (EMin, EV 0) = Some (CLe 0) /\ emit1 None None (EV 0, EMax) = Some (CGe 0) /\
+  emit1 (Some 0) None (EV 0, EMax) = None /\ emit1 None None (EV 0, EV 0) = Some (CEq 0) /\
+  int_check false [(EMin, EV 0)] (-1) = ROk /\ int_check true [(EV 0, EMax)] 5 = ROk /\
+  int_check true [(EV 0, EMax)] (-5) = RFail WConstraint /\ int_check false [(EMin, EV 0)] 1 = RFail WConstraint.
+Proof. vm_compute. auto 10. Qed.
 Example ex_clamp : ctfail_clamp 8 40 = Some (7, 7) /\ ctfail_clamp 64 40 = Some (40, 40) /\ ctfail_clamp 8 (-1) = Some (7, 7) /\
                    ctfail_clamp 64 (-1) = Some (18, 18) /\ ctfail_clamp 1 40 = Some (0, 0) /\ ctfail_clamp 0 40 = None.
 Proof. vm_compute. auto 10. Qed.
